@@ -6,7 +6,7 @@ From Coq Require Import List NArith ZArith Bool Permutation.
 Import ListNotations.
 Require Import MV.Common.Interleave MV.C10.Model MV.C10.Spec MV.C10.Exec
                MV.C10.ProofsConc MV.C10.ProofsConc2 MV.C10.ProofsSeq MV.C10.ExecProofs
-               MV.C10.ProofsBound MV.C10.ProofsRefine MV.C10.ProofsWire MV.C10.ProofsSound MV.C10.ProofsSuffix MV.C10.ProofsAbs MV.C10.ProofsCompose.
+               MV.C10.ProofsBound MV.C10.ProofsRefine MV.C10.ProofsWire MV.C10.ProofsSound MV.C10.ProofsSuffix MV.C10.ProofsAbs MV.C10.ProofsCompose MV.C10.ProofsCompose2 MV.C10.ProofsAbs2.
 Open Scope N_scope.
 
 (* counters driven only by increments, any number of updating and flushing threads, every schedule,
@@ -270,3 +270,39 @@ Theorem C10_spec_ok_on_model_keys : forall c, o_max c < 4294967296 -> ops_wf c -
                       && histogram_ok (o_samp c) (o_rsv c) (flat_map (projH k) (o_ops c)) (obs_hist k fl))
             (keyids c) = true.
 Proof. exact key_clauses_on_run. Qed.
+
+(* ---------------------------------------------------------------- round 5 *)
+
+(* the composed theorem for sequential cases: for EVERY sequential case with counter values < 2^64,
+   sampling windows within the reservoir and no newline byte in prefix / global labels / key names /
+   key labels ([seq_wf]; max payload length arbitrary: >= 2^32 gives the documented constructor panic),
+   the executable property holds on the model's run: per flush well-formed messages (no duplicate
+   (kind, key), counter values u64), timestamp iff Aggressive, every payload framed for the transport,
+   one line, within the limit (C09's writer theorems + the structure of C09's render), and the counter,
+   gauge and histogram walkers accept what is read back for every key *)
+Theorem C10_spec_ok_on_model_seq : forall c, seq_wf c -> spec_ok (CSeq c) (run_case (CSeq c)) = true.
+Proof. exact spec_ok_on_model_seq. Qed.
+
+(* the executable class predicate vs the proof's hazard predicate: if known_class = None for a
+   scheduled case, then the run the check evaluates (given schedule + round-robin tail, as one
+   effective schedule [full]) is, whenever it completes, hazard-free at every configuration *)
+Theorem C10_known_class_none_hazard_free : forall ps sched,
+  known_class (CSched ps sched) = None ->
+  exists full, exec_full (step all_fixed) site rr_fuel (init_config ps) (map N.to_nat sched)
+               = exec (step all_fixed) site (init_config ps) full /\
+    (all_done (step all_fixed) (fst (exec (step all_fixed) site (init_config ps) full)) = true ->
+     safe (init_config ps) full).
+Proof. exact known_class_none_hazard_free. Qed.
+
+(* hence, on exactly the completed cases the check does not excuse: increment-free programs
+   (absolute values <= A < 2^64), one counter-flushing thread: no wrapped delta, last <= current *)
+Theorem C10_absolute_no_wrap_outside_class : forall A f ps sched,
+  A < two64 -> Forall (abs_prog A) ps -> one_flusher f ps ->
+  known_class (CSched ps sched) = None ->
+  exists full, exec_full (step all_fixed) site rr_fuel (init_config ps) (map N.to_nat sched)
+               = exec (step all_fixed) site (init_config ps) full /\
+    let c := fst (exec (step all_fixed) site (init_config ps) full) in
+    all_done (step all_fixed) c = true ->
+    Forall (fun d => d <= A) (sent (fst c) ++ rawd (fst c) ++ lost (fst c)) /\
+    cur (cnt (fst c)) <= A /\ last (cnt (fst c)) <= cur (cnt (fst c)).
+Proof. exact absolute_no_wrap_outside_class. Qed.
